@@ -684,6 +684,9 @@ type c12Gen struct {
 	files int
 	big   bool
 
+	snaps [][]byte // files saved earlier in this session (candidates for a mid-session load)
+	loads int
+
 	saver    *generator.GraphSaver // on-disk save path (generator/graph_saver.go), attached to a share of the histories
 	savePath string
 	saves    int
@@ -738,6 +741,169 @@ func (g *c12Gen) save(full bool) {
 func (g *c12Gen) afterEdit() {
 	if g.saver != nil && g.c.Rng.Intn(4) != 0 {
 		g.save(false)
+	}
+}
+
+// files saved by earlier histories (other applications): candidates for "open another file in the running editor"
+var c12FilePool [][]byte
+
+// the node id table read both ways: every id the save would bind must resolve (Node(id)) to the node that carries
+// that id (NodeId) - the id-based editing operations then reach exactly the nodes that get saved
+func (g *c12Gen) idTable(when string) {
+	g.c.Emit("c12.holds.id_table", Guard(func() string {
+		var sa schema.App
+		g.inst.EncodeToAppSchema(&sa, &jbtf.Encoder{})
+		ids := make([]string, 0, len(sa.Nodes))
+		for id := range sa.Nodes {
+			ids = append(ids, id)
+		}
+		sort.Strings(ids)
+		parts := []string{strconv.Itoa(len(ids))}
+		for _, id := range ids {
+			back := "<nil>"
+			if n := g.inst.Node(id); n != nil {
+				back = g.inst.NodeId(n)
+			}
+			parts = append(parts, hs(id), hs(back))
+		}
+		return strings.Join(parts, " ")
+	}), "true")
+	g.c.Note("id_table." + when)
+}
+
+// every id of the session is resolved through the id-based read accessors (what the editor does when it draws the graph)
+func (g *c12Gen) readAllByID() {
+	for _, id := range g.ids {
+		id := id
+		Guard(func() string {
+			g.inst.Node(id)
+			if g.isParam(id) {
+				g.inst.ParameterData(id)
+				g.inst.Parameter(id).DisplayName()
+			}
+			return ""
+		})
+	}
+	g.c.Note("load.ids-read-before")
+}
+
+func (g *c12Gen) snapshot() {
+	data := Guard(func() string { return string(g.app.Schema()) })
+	if data != "panic" && len(data) < 40000 {
+		g.snaps = append(g.snaps, []byte(data))
+	}
+}
+
+// POST /graph of the editor: App.ApplySchema on the RUNNING application (not a fresh one).  Event `L <file>`;
+// model: state := decode(current header, file).  kind: self (the graph as it is now - same ids), earlier (a file saved
+// earlier in this session), other (a file another application saved: different ids / types under the same ids)
+func (g *c12Gen) loadInPlace(kind string) {
+	r := g.c.Rng
+	var data []byte
+	switch {
+	case kind == "earlier" && len(g.snaps) > 0:
+		data = g.snaps[r.Intn(len(g.snaps))]
+	case kind == "other" && len(c12FilePool) > 0:
+		data = c12FilePool[r.Intn(len(c12FilePool))]
+	default:
+		kind = "self"
+		s := Guard(func() string { return string(g.app.Schema()) })
+		if s == "panic" {
+			return
+		}
+		data = []byte(s)
+	}
+	parsed, err := jbtf.Unmarshal[schema.App](data)
+	if err != nil {
+		return
+	}
+	ids := make([]string, 0, len(parsed.Nodes))
+	for id := range parsed.Nodes {
+		ids = append(ids, id)
+	}
+	sort.Strings(ids)
+	for _, id := range ids {
+		if g.t.info(parsed.Nodes[id].Type) == nil {
+			g.c.Note("load.skipped-unknown-type")
+			return
+		}
+	}
+	for _, id := range ids {
+		g.use(parsed.Nodes[id].Type)
+	}
+	same := 0
+	for _, id := range ids {
+		if g.tyOf[id] != "" {
+			same++
+		}
+	}
+	st := Guard(func() string {
+		if err := g.app.ApplySchema(data); err != nil {
+			return "err"
+		}
+		return "ok"
+	})
+	g.ops = append(g.ops, "L "+c12DumpFile(data))
+	g.stat = append(g.stat, st)
+	g.loads++
+	g.c.Note("op.L." + kind + "." + st)
+	switch {
+	case len(ids) == 0:
+		g.c.Note("load.file-empty")
+	case same == len(ids):
+		g.c.Note("load.file-binds-only-known-ids")
+	case same == 0:
+		g.c.Note("load.file-binds-only-new-ids")
+	default:
+		g.c.Note("load.file-binds-known-and-new-ids")
+	}
+	if st == "ok" {
+		g.ids = ids
+		g.tyOf = map[string]string{}
+		g.files = 0
+		for _, id := range ids {
+			g.tyOf[id] = parsed.Nodes[id].Type
+			if parsed.Nodes[id].Type == c12File {
+				g.files++
+			}
+		}
+	}
+	g.idTable("after-load")
+	g.afterEdit()
+}
+
+// id-based edits right after a load: value and name of some parameters, a producer, a connection
+func (g *c12Gen) editAfterLoad() {
+	r := g.c.Rng
+	for k := 0; k < 3; k++ {
+		id, ok := g.pick(func(id string) bool { return g.isParam(id) })
+		if !ok {
+			break
+		}
+		g.setValue(id, g.randMessageFor(id))
+		if r.Intn(2) == 0 {
+			s := g.randString()
+			g.do("A "+hs(id)+" "+hs(s), func() string { g.inst.Parameter(id).SetName(s); return "ok" })
+		}
+	}
+	if id, ok := g.pick(func(id string) bool { return g.t.info(g.tyOf[id]).out == 0 }); ok {
+		g.do("P "+hs(id)+" "+hs("after-load.txt"), func() string { g.inst.SetNodeAsProducer(id, "after-load.txt"); return "ok" })
+	}
+	g.c.Note("load.id-edits-after")
+}
+
+// one mid-session load with what surrounds it
+func (g *c12Gen) midLoad() {
+	r := g.c.Rng
+	if r.Intn(2) == 0 {
+		g.readAllByID()
+	}
+	if r.Intn(4) == 0 {
+		g.preview()
+	}
+	g.loadInPlace([]string{"self", "self", "earlier", "other"}[r.Intn(4)])
+	if r.Intn(4) != 0 {
+		g.editAfterLoad()
 	}
 }
 
@@ -996,17 +1162,22 @@ func (g *c12Gen) reaches(src, dst string) bool {
 	if src == dst {
 		return true
 	}
-	seen := map[string]bool{}
+	// by node identity, not by id: the walk must terminate and be right also when the id table and the nodes the
+	// id-based operations reach have come apart (then the oracles report it; the harness must not build a cycle)
+	target := g.inst.Node(dst)
+	seen := map[nodes.Node]bool{}
 	var walk func(n nodes.Node) bool
 	walk = func(n nodes.Node) bool {
-		id := g.inst.NodeId(n)
-		if id == dst {
-			return true
-		}
-		if seen[id] {
+		if n == nil {
 			return false
 		}
-		seen[id] = true
+		if n == target || g.inst.NodeId(n) == dst {
+			return true
+		}
+		if seen[n] {
+			return false
+		}
+		seen[n] = true
 		for _, d := range n.Dependencies() {
 			if walk(d.Dependency()) {
 				return true
@@ -1613,6 +1784,7 @@ func c12History(c *Ctx, t *c12Types, i int) {
 	if r.Intn(5) == 0 {
 		app.WebScene = &schema.WebScene{AntiAlias: true, Fog: schema.WebSceneFog{Near: 1.5, Far: 30}}
 	}
+	hdr0 := c12Hdr(app) // the header when the session starts (a mid-session load merges the file's header into it)
 	initDump := "-"
 	if i%4 == 1 {
 		// a graph defined in code (App.Files), with parameters whose DEFAULTS are not the zero value
@@ -1709,8 +1881,37 @@ func c12History(c *Ctx, t *c12Types, i int) {
 		}
 		c.Note("shape.array>=10")
 	}
+	// a third of the histories load a saved graph into the RUNNING application (POST /graph) and go on editing
+	withLoads := i%3 == 1
+	if withLoads && r.Intn(4) == 0 {
+		// load into the still unused application first (no id has been resolved yet), edit, and load again later
+		g.loadInPlace([]string{"other", "self"}[r.Intn(2)])
+		g.editAfterLoad()
+		c.Note("shape.load-before-any-edit")
+	}
 	for j := 0; j < n; j++ {
 		g.step()
+		if withLoads {
+			if r.Intn(6) == 0 {
+				g.snapshot()
+			}
+			if r.Intn(n/2+1) == 0 && g.loads < 4 {
+				g.midLoad()
+			}
+		}
+	}
+	if withLoads {
+		if g.loads == 0 || r.Intn(3) == 0 {
+			// the shape of the editor session: build, look at it, re-open a file, change values, save
+			g.readAllByID()
+			g.loadInPlace([]string{"self", "earlier", "other"}[r.Intn(3)])
+			g.editAfterLoad()
+			for j := r.Intn(6); j > 0; j-- {
+				g.step()
+			}
+		}
+		c.Note("shape.mid-session-load")
+		c.Note(fmt.Sprintf("loads.%d", g.loads))
 	}
 	if i%5 == 2 {
 		// preview, THEN the last edits: (a) a float flips between 0 and -0 under a producer that prints its sign,
@@ -1810,7 +2011,7 @@ func c12History(c *Ctx, t *c12Types, i int) {
 	c.Note(fmt.Sprintf("nodes.%s", bucket(len(g.ids))))
 
 	table := t.table(g.order)
-	req := c12Hdr(app) + " " + table + " " + initDump + " " + strconv.Itoa(len(g.ops))
+	req := hdr0 + " " + table + " " + initDump + " " + strconv.Itoa(len(g.ops))
 	if len(g.ops) > 0 {
 		req += " " + strings.Join(g.ops, " ")
 	}
@@ -1821,6 +2022,9 @@ func c12History(c *Ctx, t *c12Types, i int) {
 		return
 	}
 	c.Emit("c12.edit", req, c12Stat(g.stat)+" "+dumpOrig)
+	if g.loads > 0 {
+		g.idTable("end-of-session")
+	}
 
 	saved := Guard(func() string { return string(app.Schema()) })
 	if saved == "panic" {
@@ -1850,6 +2054,13 @@ func c12History(c *Ctx, t *c12Types, i int) {
 	if st != "ok" {
 		c.Emit("c12.holds.reload_ok", hs(st), "true")
 		return
+	}
+	if len(saved) < 40000 {
+		// a file that loads: later histories may open it in their running application
+		c12FilePool = append(c12FilePool, []byte(saved))
+		if len(c12FilePool) > 12 {
+			c12FilePool = c12FilePool[1:]
+		}
 	}
 	dumpReload := Guard(func() string { return c12DumpInstance(fresh) })
 	c.Emit("c12.reload", req, dumpReload)
